@@ -87,10 +87,40 @@
             [len b] is exactly 1/2/4/8: for a constant sub-slice the translator checks the length
             statically (and rejects the program otherwise); for any other argument the panic is not
             modelled (the readers then yield 0);
-          - a slice whose element type is outside the subset (e.g. [[]*ValueDescription]) is kept
+          - package encoding/binary: [binary.LittleEndian.Uint16/32/64(b)] read the first 2/4/8 bytes
+            of [b] as a little-endian word, [binary.LittleEndian.PutUint16/32/64(b[lo:hi], v)] write
+            them at offset [lo]; a longer slice is accepted (unlike nlenc), the panic on a shorter one
+            is checked statically for constant sub-slices and not modelled otherwise;
+          - a WRITTEN [[]byte] PARAMETER (fourth round; e.g. method [marshalBinary(b []byte)] of socketcan.frame) is
+            treated like the one written pointer parameter: the function returns the final contents
+            of that slice (its length never changes: only [b[i] = v], [PutUintNN(b[lo:hi], v)] and
+            [copy(b[lo:hi] / b[lo:], src)] are accepted).  ASSUMPTION: the written slice does not
+            overlap the memory of any other parameter (array fields of a pointer receiver, other
+            slices).  The call sites in /repo satisfy it (transmitter.go: a fresh [make([]byte, 16)];
+            receiver.go: the receiver's own scratch array and its own [frame] field);
+          - [x[lo:hi]] in a READ position (source of [copy], argument of a library reader, operand of
+            [len], returned value) may have non-constant integer bounds and may slice a [N]byte array
+            ([a[lo:hi]] of an array only as the source of [copy] / argument of a reader, so that no
+            alias of the array survives the statement): [bytes_slice x lo hi]; [b[lo:]] is
+            [b[lo:len(b)]].  Slice-bound panics (hi > cap, lo > hi, negative) are not modelled, as
+            before;
+          - THE ONE MODELLED PANIC: the explicit bounds-check statement [_ = b[k]] (k a constant, b a
+            []byte).  A function containing one is translated to a function into [option]:
+            [if bytes_len b <=? k then None else ...], every [return] wrapped in [Some].  Such a
+            function cannot be called from another translated function;
+          - LOOPS, slices of structs, [*S] results, [range] over strings: see the comments at
+            [go_loop] / [go_range], [go_utf8_decode] / [go_range_string], [list_len] / [go_deref] below;
+          - library functions WITHOUT a model ([unicode.IsDigit], [unicode.IsUpper], ...) are not
+            defined here: a translated function that uses one takes it as a leading parameter
+            [Z -> bool], and its lemma in Equiv.v is stated for every such function;
+          - a named result that the body never mentions is an ordinary result; the statement
+            [defer func() { if err != nil { err = fmt.Errorf(...) } }()] (err the named error result)
+            replaces a non-nil error by a non-nil error: under the reduction of errors to nil / non-nil
+            it has no effect and is skipped; every other [defer] is rejected;
+          - a slice whose element type is outside the subset (e.g. [[]string]) is kept
             as its LENGTH only ([go_len], a non-negative integer; the only operation is [len]);
-          - a [string] is the [list Z] of its bytes (only constants, locals and results; no
-            operations);
+          - a [string] is the [list Z] of its bytes (constants, locals, parameters and results);
+            [==], [!=] and [switch] on strings compare the byte sequences ([go_string_eqb]);
           - [go/types.Typ[k]] (the table of predeclared basic types indexed by [types.BasicKind]) is
             represented by the kind [k] itself ([go_types_Typ]); named constants of a defined type
             such as [types.Float32] are printed as their value with the name as a comment.
@@ -201,8 +231,135 @@ Definition nlenc_Uint64 (b : go_bytes) : Z :=
 Definition nlenc_Int32 (b : go_bytes) : Z :=
   let u := nlenc_Uint32 b in if u <? 2 ^ 31 then u else u - 2 ^ 32.
 
+(** * encoding/binary: binary.LittleEndian.UintNN / PutUintNN
+    (byte order fixed by the package, not by the host).  Unlike nlenc these accept a slice that is
+    LONGER than the word: they read / write its first 2/4/8 bytes ([_ = b[N-1]] is their bounds
+    check).  The translator checks a constant sub-slice to have at least that length; for any other
+    argument the panic on a short slice is not modelled (the readers then yield 0, the writers write
+    the bytes that exist). *)
+Definition binary_le_Uint16 (b : go_bytes) : Z := match b with b0 :: b1 :: _ => b0 + 256 * b1 | _ => 0 end.
+Definition binary_le_Uint32 (b : go_bytes) : Z :=
+  match b with b0 :: b1 :: b2 :: b3 :: _ => b0 + 256 * b1 + 65536 * b2 + 16777216 * b3 | _ => 0 end.
+Definition binary_le_Uint64 (b : go_bytes) : Z :=
+  match b with
+  | b0 :: b1 :: b2 :: b3 :: b4 :: b5 :: b6 :: b7 :: _ =>
+      b0 + 256 * b1 + 65536 * b2 + 16777216 * b3 + 2 ^ 32 * (b4 + 256 * b5 + 65536 * b6 + 16777216 * b7)
+  | _ => 0
+  end.
+(** [binary.LittleEndian.PutUintNN(b[lo:hi], v)]: a store THROUGH the sub-slice, at offset [lo] of [b] *)
+Definition binary_le_PutUint16 (b : go_bytes) (lo v : Z) : go_bytes := bytes_splice b lo (le_bytes2 v).
+Definition binary_le_PutUint32 (b : go_bytes) (lo v : Z) : go_bytes := bytes_splice b lo (le_bytes4 v).
+Definition binary_le_PutUint64 (b : go_bytes) (lo v : Z) : go_bytes := bytes_splice b lo (le_bytes8 v).
+
+(** * Loops (fourth round): [for i, x := range l { body }] and [for i := 0; i < len(l); i++ { body }]
+    whose body assigns locals, [continue]s or [return]s.  One iteration maps the state (the tuple of
+    the locals declared before the loop that the body assigns) to [LoopNext state'] (end of the body,
+    or [continue]) or to [LoopReturn r] (a [return r] inside the body: the FUNCTION returns r).
+    [go_range body i l s] runs the iterations over the elements of [l] from index [i], stopping at
+    the first [LoopReturn].  The translator prints
+        match go_range (fun i x state => body) 0 l state with
+        | LoopReturn r => r | LoopNext state => (the statements after the loop) end.
+    The range expression is evaluated once (Go: "the range expression is evaluated once before
+    beginning the loop"); the iteration variables are fresh in each iteration (the body cannot
+    change which elements are visited: it cannot assign the slice, which is not a local it may
+    store through, and a []byte it writes through is not ranged over in /repo's translated code).
+    [break], labels and [goto] are outside the subset. *)
+Inductive go_loop (S R : Type) : Type :=
+| LoopNext (s : S)
+| LoopReturn (r : R).
+Arguments LoopNext {S R} s.
+Arguments LoopReturn {S R} r.
+
+Fixpoint go_range {A S R : Type} (body : Z -> A -> S -> go_loop S R) (i : Z) (l : list A) (s : S) : go_loop S R :=
+  match l with
+  | [] => LoopNext s
+  | x :: tl =>
+      match body i x s with
+      | LoopNext s' => go_range body (i + 1) tl s'
+      | LoopReturn r => LoopReturn r
+      end
+  end.
+
+(** [for i, r := range s] over a STRING: "iterates over the Unicode code points in the string starting
+    at byte index 0; the index is the index of the first byte of the code point, the second value the
+    code point; an invalid UTF-8 sequence yields 0xFFFD and advances a single byte" (Go spec, For
+    statements with range clause).  [go_utf8_decode] is the decoding of the first code point by the
+    table of RFC 3629 / unicode/utf8 (shortest form only, no surrogates, at most U+10FFFF):
+      00..7F | C2..DF 80..BF | E0 A0..BF 80..BF | E1..EC,EE,EF 80..BF 80..BF | ED 80..9F 80..BF |
+      F0 90..BF 80..BF 80..BF | F1..F3 80..BF 80..BF 80..BF | F4 80..8F 80..BF 80..BF.
+    The fuel of the iteration is the number of bytes (every step consumes at least one). *)
+Definition utf8_cont (b : Z) : bool := (128 <=? b) && (b <=? 191).
+Definition go_utf8_decode (s : list Z) : Z * Z :=
+  let bad := (65533, 1) in
+  match s with
+  | [] => (65533, 0)
+  | b0 :: t =>
+    if b0 <? 128 then (b0, 1)
+    else if (194 <=? b0) && (b0 <=? 223) then
+      match t with
+      | b1 :: _ => if utf8_cont b1 then ((b0 mod 32) * 64 + b1 mod 64, 2) else bad
+      | _ => bad
+      end
+    else if (224 <=? b0) && (b0 <=? 239) then
+      match t with
+      | b1 :: b2 :: _ =>
+        let lo := if b0 =? 224 then 160 else 128 in
+        let hi := if b0 =? 237 then 159 else 191 in
+        if (lo <=? b1) && (b1 <=? hi) && utf8_cont b2
+        then ((b0 mod 16) * 4096 + (b1 mod 64) * 64 + b2 mod 64, 3) else bad
+      | _ => bad
+      end
+    else if (240 <=? b0) && (b0 <=? 244) then
+      match t with
+      | b1 :: b2 :: b3 :: _ =>
+        let lo := if b0 =? 240 then 144 else 128 in
+        let hi := if b0 =? 244 then 143 else 191 in
+        if (lo <=? b1) && (b1 <=? hi) && utf8_cont b2 && utf8_cont b3
+        then ((b0 mod 8) * 262144 + (b1 mod 64) * 4096 + (b2 mod 64) * 64 + b3 mod 64, 4) else bad
+      | _ => bad
+      end
+    else bad
+  end.
+Fixpoint go_range_string_fuel {S R : Type} (fuel : nat) (body : Z -> Z -> S -> go_loop S R)
+    (i : Z) (bs : list Z) (s : S) : go_loop S R :=
+  match fuel with
+  | O => LoopNext s
+  | Datatypes.S fuel' =>
+    match bs with
+    | [] => LoopNext s
+    | _ =>
+      let '(r, w) := go_utf8_decode bs in
+      match body i r s with
+      | LoopNext s' => go_range_string_fuel fuel' body (i + w) (skipn (Z.to_nat w) bs) s'
+      | LoopReturn x => LoopReturn x
+      end
+    end
+  end.
+Definition go_range_string {S R : Type} (body : Z -> Z -> S -> go_loop S R) (i : Z) (bs : list Z) (s : S) : go_loop S R :=
+  go_range_string_fuel (length bs) body i bs s.
+
+(** the indices of [for i := 0; i < n; i++]: n iterations, the element is not looked at *)
+Definition go_iota (n : Z) : list unit := repeat tt (Z.to_nat n).
+
+(** * Slices of structs / of pointers to structs: the list of the element values.
+    A [[]*S] is read as the list of the structs its elements point to: the elements are ASSUMED
+    non-nil and the identity of the pointers (aliasing between elements, or with other pointers) is
+    not represented - sound for functions that only READ through them.  A RESULT or LOCAL of type
+    [*S] is [option S] ([nil] = [None]); [p.f] on such a local is [S_f (go_deref zero_S p)]: the
+    nil-dereference panic is not modelled (the zero value is read).  Parameters and receivers of
+    type [*S] are the value pointed to, as before. *)
+Definition list_len {A : Type} (l : list A) : Z := Z.of_nat (length l).
+Definition go_deref {A : Type} (zero : A) (p : option A) : A := match p with Some x => x | None => zero end.
+
 (** * Slices kept as their length; strings; go/types.Typ *)
 Definition go_len := Z.
 Definition go_string := list Z.
+(** [s == t] on strings: same length and the same bytes *)
+Fixpoint go_string_eqb (a b : go_string) : bool :=
+  match a, b with
+  | [], [] => true
+  | x :: a', y :: b' => (x =? y) && go_string_eqb a' b'
+  | _, _ => false
+  end.
 Definition go_basic_type := Z.
 Definition go_types_Typ (kind : Z) : go_basic_type := kind.
